@@ -64,7 +64,7 @@ func runC09(c *Ctx) {
 			}
 			ok, why := c.onlyFromTeardownAfterClear(fn)
 			if fn == a.TeardownCore {
-				ok = SetDominates(fn, func(in ssa.Instruction) bool { return c.isFlagStore(in, false) }, op.In)
+				ok = SetDominates(fn, func(in ssa.Instruction) bool { return c.isFlagClear(in) }, op.In)
 				why = "in the teardown after connected=false"
 			}
 			if valueUsed(v) {
@@ -158,8 +158,9 @@ func runC09(c *Ctx) {
 			switch {
 			case n == "(*bufio.Reader).ReadString" || n == "(*bufio.Reader).ReadBytes":
 				return // reading: C03
-			case n == "(net.Conn).Close" || n == "bufio.NewReader" || n == "bufio.NewWriter" || n == "bufio.NewReadWriter" || n == "crypto/tls.Client" || n == "(*crypto/tls.Conn).Handshake":
-				return // lifecycle
+			case n == "(net.Conn).Close" || n == "bufio.NewReader" || n == "bufio.NewWriter" || n == "bufio.NewReadWriter" || n == "crypto/tls.Client" || n == "(*crypto/tls.Conn).Handshake" ||
+				strings.HasSuffix(n, "Conn).SetDeadline") || strings.HasSuffix(n, "Conn).SetReadDeadline") || strings.HasSuffix(n, "Conn).SetWriteDeadline"):
+				return // lifecycle; deadlines put nothing on the wire (C07.R8 watches them)
 			case n == "(*bufio.Writer).WriteString":
 				nW++
 				ok, why := fn == leaf, "in "+c.FuncKey(fn)
